@@ -288,6 +288,9 @@ def run(db, cx):
     # 4. per-stream staging state is per event: what a stream stages for one event must not leak
     # into the next one (otherwise results depend on which stream ran which events before)
     shared.primaries_handoff(db, cx, "C07.4-stream-staging")
+    # a stream that is re-used after an aborted event must give the next event the state a
+    # fresh stream would: reset() restores every slot and counter on every path
+    shared.reset_completeness(db, cx, "C07.4-stream-reset")
 
     # 5. begin_run is non-const by design and is invoked on the *shared* action object once per
     # stream (from every Stepper constructor): whatever it writes into the action must be
